@@ -51,10 +51,10 @@ def handle (line : String) : String :=
     match limit.toNat?, fuel.toNat?, (if pages == "-" then some [] else (pages.splitOn ";").mapM parsePage) with
     | some l, some f, some ps => showOut (runS (scriptServer ps) f 0 (Iter.init l))
     | _, _, _ => "bad-op"
-  | ["dlg", limit, fuel, kinds, ds] =>
-    match limit.toNat?, fuel.toNat?, parseKinds kinds, parseDlgs ds with
-    | some l, some f, some ks, some d => showDOut (drun d f ks (DIter.init l))
-    | _, _, _, _ => "bad-op"
+  | ["dlg", limit, cap, fuel, kinds, ds] =>
+    match limit.toNat?, cap.toNat?, fuel.toNat?, parseKinds kinds, parseDlgs ds with
+    | some l, some cap, some f, some ks, some d => showDOut (drun d f ks cap (DIter.init l))
+    | _, _, _, _, _ => "bad-op"
   | _ => "bad-op"
 
 def main : IO Unit := runDriver handle
